@@ -6,7 +6,7 @@ RULE = ("seeded random histories on a fresh NNS deployment: 2 TLDs (one may expi
         "(years 0..11, default overload), updateSOA, setAdmin, add/set/deleteRecords over A/AAAA/CNAME/TXT incl. bursts past 16 records, CNAME "
         "chains of 0..4 links incl. cycles and trailing dots, sub-name records before registrations (F15), the conflict rule at every depth (records 1..4 labels below a not-yet-registered name plus sibling / exact / one-below neighbours, then isAvailable and register of the name, deletion, registration), setRecord with another record's "
         "value (F16), setPrice incl. 0; signer per op drawn from {owner, admin, former owner, former admin, parent owner, stranger, committee, "
-        "nobody, owner+other}, a role matrix (one method called by every role in turn) and the directed history setAdmin(A); transfer to B; A / former owner mutate; block time advanced by ms steps, jumps, and to exp-1/exp/exp+1 of registered names and to the instant where a "
+        "nobody, owner+other}, committees of 1, 4 and 6 members (3 and 5 in the thorough tier) with the signer classes single member / half / majority-1 / majority / majority+1 for every committee-gated method, setAdmin by the current admin with and without the new admin over ownership histories, values shared between record types with setRecord at another index, a role matrix (one method called by every role in turn) and the directed history setAdmin(A); transfer to B; A / former owner mutate; block time advanced by ms steps, jumps, and to exp-1/exp/exp+1 of registered names and to the instant where a "
         "renewal meets the ten-year limit; after every invocation the read API (ownerOf, properties, isAvailable, getRecords, getAllRecords, "
         "resolve, balanceOf, tokensOf, totalSupply, roots, tokens) is queried for the touched names at the block time and at expiration "
         "boundaries; every 4th case is the malformed stream (bad names, hashes, type/id outside the byte range, huge integers) and is "
@@ -17,7 +17,7 @@ _base = dict(driver="drv_nns", harness="nns", shards=dict(quick=1, thorough=16),
                       "a receiving contract's onNEP11Payment does not call back into the NNS contract; GAS limits are not modelled"])
 PROPS = {
     "C10": dict(_base, lean=["NeoFS.Props.C10"], monitors=["C10"]),
-    "C11": dict(_base, lean=["NeoFS.Props.C11"], monitors=["C11"]),
+    "C11": dict(_base, lean=["NeoFS.Props.C11"], monitors=["C11"], facts=["consts", "access"]),
     "C12": dict(_base, lean=["NeoFS.Props.C12"], monitors=["C12"]),
 }
 NOTE = ("Theorems are about NeoFS/Model/NNS.lean, a branch-by-branch model of contracts/nns/contract.go and namestate.go (typed family maps keyed by "
@@ -32,7 +32,9 @@ CLAIMS = {
                      "notification per change of ownership. Correspondence run + monitors tie the model to the contract and exhibit failing inputs.",
                 note=NOTE, technique=TECH),
     "C11": dict(text="Unbounded proof: in every history every state-changing NNS invocation carries the witnesses the property names, evaluated on the "
-                     "ownership recorded at that step (so former owners/admins are covered); every refused or failed attempt leaves the state unchanged.",
+                     "ownership recorded at that step (so former owners/admins are covered); every refused or failed attempt leaves the state unchanged; "
+                     "the committee gate opens exactly for the (l/2+1)-of-l account of the committee keys, for every committee size (threshold expression "
+                     "tied to the sources by a regenerated fact).",
                 note=NOTE, technique=TECH),
     "C12": dict(text="Unbounded proof: add/set/deleteRecords refine the abstract per-(name,type) lists (ids are positions, at most 16, distinct, one CNAME), "
                      "SOA is never deleted and its serial is refreshed, token lookup is the longest registered unexpired suffix, resolve follows at most two "
